@@ -20,7 +20,7 @@ ASSUMPTIONS = ["tolerance 1e-8 x scale for recomputed values; sampling clauses a
                "H(t) for the recomputation is QutipEmulator.get_hamiltonian(t, noiseless=True), whose correctness is C05"]
 TIERS = {"quick": dict(cases=900, shards=8, case_timeout=300, shard_timeout=1500),
          "thorough": dict(cases=9000, shards=16, case_timeout=300, shard_timeout=3400)}
-FLOORS = {"quick": {"direct_values_checked": 3000, "mixed_state_values_checked": 1000, "algebra_checks": 1000,
+FLOORS = {"quick": {"direct_values_checked": 1200, "mixed_state_values_checked": 600, "algebra_checks": 1000,
                     "run_values_recomputed": 800, "result_time_sets_checked": 400},
           "thorough": {"direct_values_checked": 30000}}
 EIG = {2: [("r", "g"), ("g", "h"), ("u", "d")], 3: [("r", "g", "h")], 4: [("r", "g", "h", "x")]}
